@@ -187,7 +187,7 @@ PROPS["C17"] = {
             "classes: epoch +-{0,1,99,100,101 ns}, sub-100ns fractions, 1601 exactly +-, year 1000, now, 9999, the tick limit +-, year 1e5, "
             "random) on 5-80 entries interleaved with structural changes; checks: entry/listing/walk immediately (model with independent "
             "i128 tick arithmetic), reopen in both modes, raw bytes through the independent parser (GUID field layout, tick value), "
-            "clock window of new storages and touch; a fifth of the histories start from a synthesised foreign file whose unallocated directory entries carry stale CLSID / state / time fields; one setter in twelve is preceded by a failed attempt on a store that fails one underlying call (the same setter, then repeated by the step; or, for storages, a setter of another field that is not repeated and whose visible outcome is adopted). Right after a setter that failed on a store hiccup, lookups are compared with what the stored bytes reopen to (whichever value the failed call left, both must agree). non-trivial = >= 3 metadata calls; distinct = FNV-64 of steps",
+            "clock window of new storages and touch; a fifth of the histories start from a synthesised foreign file whose unallocated directory entries carry stale CLSID / state / time fields; one setter in twelve is preceded by a failed attempt on a store that fails one underlying call (the same setter, then repeated by the step; or, for storages, a setter of another field that is not repeated and whose visible outcome is adopted). The refused underlying call is any of the 94 seeks and writes of an entry rewrite, so the new value may already be in the file when the call fails. Right after a setter that failed without having changed a byte of the file, lookups are compared with what the stored bytes reopen to (both must agree); after half of the failed setters the same field is set again to the value that lookups report (the caller puts it back): that call must return Ok and leave lookups and the stored bytes in agreement on that value. non-trivial = >= 3 metadata calls; distinct = FNV-64 of steps",
     "assumptions": COMMON_ASSUMPTIONS + ["set_modified_time / touch on the root changes the root's time (code behaviour; the doc comment of touch says otherwise)",
                                          "a clock window sample is skipped if the wall clock stepped backwards between the two readings"],
     "checked_share": 0.6,
